@@ -214,7 +214,7 @@ func loadSchema(files map[string]string) (*ast.Schema, error) {
 }
 
 func gen(t *rapid.T) Case {
-	s := sdlgen.Generate(t, sdlgen.Options{Files: rapid.IntRange(1, 3).Draw(t, "files"), Roots: true, Hostile: rapid.Bool().Draw(t, "hostile"), DeprecatedInputs: true, MaxTypes: 14, ExecDirectives: true})
+	s := sdlgen.Generate(t, sdlgen.Options{Files: rapid.IntRange(1, 3).Draw(t, "files"), Roots: true, Hostile: rapid.Bool().Draw(t, "hostile"), DeprecatedInputs: true, MaxTypes: 14, ExecDirectives: true, Cycles: true})
 	schema, err := loadSchema(s.Files)
 	if err != nil {
 		t.Skip("invalid schema")
@@ -234,6 +234,11 @@ func gen(t *rapid.T) Case {
 		}
 	}
 	c := Case{Files: s.Files, Config: cfggen.Draw(t, "gen", fields)}
+	if s.Features["non-null-object-cycle"] && rapid.Bool().Draw(t, "valuefields") {
+		// the order-sensitive pass of modelgen (cyclical relationships) only runs with value fields
+		c.Config.Bools["struct_fields_always_pointers"] = false
+		vfrun.Label("schema:non-null-object-cycle+value-fields")
+	}
 	follow := c.Config.ExecLayout == "follow-schema" || c.Config.ResolverLayout == "follow-schema"
 	if len(s.Files) >= 2 && follow {
 		vfrun.NonTrivial(s.SDL() + c.Config.YAML())
